@@ -84,11 +84,14 @@ const (
 	shBrTableDefaultBackEdge
 	shCrossModuleLoop
 	shCrossModuleNestedLoop
+	shLoopAtLoopHeader
+	shLoopInBlockAtLoopHeader
 	numShapes
 )
 
 var shapeNames = []string{"loop", "nested-loops", "br_table-reentry", "loop-around-recursion", "self-return_call", "mutual-return_call", "return_call_indirect", "call_indirect-in-loop", "loop-entered-from-host-callback", "return_call-into-looping-function",
-	"loop-with-br_if-back-edge", "loop-with-br_table-back-edges", "loop-with-br_table-default-back-edge", "loop-in-imported-module-function", "loop-in-callee-of-imported-module-function"}
+	"loop-with-br_if-back-edge", "loop-with-br_table-back-edges", "loop-with-br_table-default-back-edge", "loop-in-imported-module-function", "loop-in-callee-of-imported-module-function",
+	"loop-opening-at-a-loop-header", "loop-in-block-opening-at-a-loop-header"}
 
 // guestWASI: the guests' cycles also call WASI sched_yield (function index 1; every other function moves
 // up by one), so the running code depends on the module's system context while the module is closed
@@ -150,6 +153,23 @@ func buildGuest(shape int, yield bool, pad int) ([]byte, int) {
 		tick(c, 2)
 		c.Br(0).End()
 		m.AddFunc(nil, nil, i32, c.B, "run")
+	case shLoopAtLoopHeader, shLoopInBlockAtLoopHeader:
+		// the inner loop opens right at the outer loop's header; only the INNER back edge is ever taken
+		c := &wasmb.Code{}
+		enter(c)
+		c.Loop(wasmb.BlockVoid)
+		if shape == shLoopInBlockAtLoopHeader {
+			c.Block(wasmb.BlockVoid)
+		}
+		c.Loop(wasmb.BlockVoid)
+		padding(c)
+		tick(c, 1)
+		c.Br(0).End()
+		if shape == shLoopInBlockAtLoopHeader {
+			c.End()
+		}
+		c.End()
+		m.AddFunc(nil, nil, nil, c.B, "run")
 	case shBrTable:
 		c := &wasmb.Code{}
 		enter(c)
